@@ -247,6 +247,7 @@ func (f *Frame) staticCall(st *execState, fn *ssa.Function, args, free []Val, rt
 		}
 		g.counters = f.counters
 		g.inlineSet = f.inlineSet
+		g.parent = f
 		if len(f.unp) > 0 {
 			g.unp = f.unp
 			g.unpIn = map[*unpObj]Val{}
@@ -364,6 +365,18 @@ func (e *Engine) noteAbstract(f *Frame, what string) {
 }
 
 func (e *Engine) contractFor(name string) *Contract {
+	// the contract file of the package under verification takes precedence
+	// (assumed contracts of dependencies may differ between packages)
+	if e.top != nil && e.top.fn != nil && e.top.fn.Pkg != nil {
+		pkg := e.top.fn.Pkg.Pkg.Name()
+		for _, cs := range e.csets {
+			if cs.Pkg == pkg {
+				if c, ok := cs.Funcs[name]; ok {
+					return c
+				}
+			}
+		}
+	}
 	for _, cs := range e.csets {
 		if c, ok := cs.Funcs[name]; ok {
 			return c
@@ -728,7 +741,53 @@ func (f *Frame) topFrame() *Frame { return f.e.top }
 
 // frameCheck: a write to [addr, addr+size) must lie inside a declared modifies
 // region of the function under proof or inside memory allocated during the call.
+// loopFrameCheck: a write inside a loop that declares a frame must stay inside
+// that frame (or go to memory allocated after the address-space split); this
+// is what justifies havocking only the declared regions at the loop head.
+func (f *Frame) loopFrameCheck(st *execState, ghost string, addr, size *Term, pos token.Pos, what string) {
+	if f.parent != nil {
+		f.parent.loopFrameCheck(st, ghost, addr, size, pos, what)
+	}
+	if f.curBlock == nil || len(f.loopMods) == 0 {
+		return
+	}
+	e := f.e
+	tb := e.tb
+	for _, li := range f.loops {
+		mods, declared := f.loopMods[li]
+		if !declared || !li.body[f.curBlock] {
+			continue
+		}
+		var alts []*Term
+		for _, d := range mods {
+			if d.ghost != ghost {
+				continue
+			}
+			if ghost != "" && (d.lo == nil || addr == nil) {
+				if d.lo == nil && addr == nil {
+					alts = append(alts, tb.True())
+				}
+				continue
+			}
+			off := tb.Sub(addr, d.lo)
+			alts = append(alts, tb.And(tb.Ule(size, d.n), tb.Ule(off, tb.Sub(d.n, size))))
+		}
+		if addr != nil {
+			alts = append(alts, tb.Eq(size, tb.ConstU(0, 64)))
+			if ghost == "" {
+				alts = append(alts, tb.Ule(tb.ConstU(preLimit, 64), addr))
+				for _, r := range f.allocs {
+					off := tb.Sub(addr, r.ptr)
+					alts = append(alts, tb.And(tb.Ule(size, r.size), tb.Ule(off, tb.Sub(r.size, size))))
+				}
+			}
+		}
+		f.oblige(st, "frame", fmt.Sprintf("L%d", li.ordinal), st.reach, tb.Or(alts...), pos, fmt.Sprintf("write inside loop %d stays inside the loop's modifies clause: %s", li.ordinal, what))
+	}
+}
+
 func (f *Frame) frameCheck(st *execState, addr, size *Term, pos token.Pos, what string) {
+	f.loopFrameCheck(st, "", addr, size, pos, what)
 	e := f.e
 	top := e.top
 	if top == nil || top.con == nil || !top.con.HasMod || e.noSafety {
@@ -760,6 +819,7 @@ func (f *Frame) frameCheckD(st *execState, d designator, pos token.Pos, what str
 		f.frameCheck(st, d.lo, d.n, pos, what)
 		return
 	}
+	f.loopFrameCheck(st, d.ghost, d.lo, d.n, pos, what)
 	top := e.top
 	if top == nil || top.con == nil || !top.con.HasMod || e.noSafety {
 		return
@@ -788,6 +848,16 @@ func (f *Frame) frameCheckD(st *execState, d designator, pos token.Pos, what str
 
 func (f *Frame) frameCheckAll(st *execState, pos token.Pos, what string) {
 	e := f.e
+	for g := f; g != nil; g = g.parent {
+		if g.curBlock == nil {
+			continue
+		}
+		for _, li := range g.loops {
+			if _, declared := g.loopMods[li]; declared && li.body[g.curBlock] {
+				g.oblige(st, "frame", fmt.Sprintf("L%d", li.ordinal), st.reach, e.tb.False(), pos, "unbounded write inside a loop with a modifies clause: "+what)
+			}
+		}
+	}
 	top := e.top
 	if top == nil || top.con == nil || !top.con.HasMod || e.noSafety {
 		return
